@@ -35,6 +35,7 @@ type ctx struct {
 	names    map[string]int // interned identifiers / literals
 	nameList []string
 	side     map[string]interface{} // JSON side file
+	sigs     map[string]map[string]int
 }
 
 func (c *ctx) intern(s string) int {
